@@ -133,7 +133,7 @@ def units_part(P, R):
             l = loops[0]
             if isinstance(l.iter, ast.Call) and norm(l.iter.func) == 'enumerate' and norm(l.iter.args[0]) == f.params[-1] and isinstance(l.target, ast.Tuple):
                 i_, j_ = [t.id for t in l.target.elts]
-                reads = {norm(s.value.slice): s.targets[0].id for s in l.body if isinstance(s, ast.Assign) and isinstance(s.value, ast.Subscript) and norm(s.value.value) == f.params[0]}
+                reads = {norm(x.slice): True for x in ast.walk(l) if isinstance(x, ast.Subscript) and norm(x.value) == f.params[0] and isinstance(x.ctx, ast.Load)}
                 okr = set(reads) == {f'2 * {j_}', f'2 * {j_} + 1'}
                 writes = [s for s in ast.walk(l) if isinstance(s, ast.Assign) and isinstance(s.targets[0], ast.Subscript) and norm(s.targets[0].value) == rname]
                 okw = bool(writes) and all(norm(s.targets[0].slice) == i_ for s in writes)
